@@ -276,6 +276,47 @@ def iteration_sites():
     return sorted(set(rows))
 
 
+ENV_WATCH = {("time", "time"), ("time", "perf_counter"), ("time", "process_time"), ("time", "monotonic"), ("signal", "alarm"), ("signal", "setitimer"),
+             ("signal", "signal"), ("os", "getpid"), ("os", "listdir"), ("os", "scandir"), ("os", "urandom"), ("glob", "glob"), ("uuid", "uuid1"), ("uuid", "uuid4"),
+             ("random", "random"), ("random", "choice"), ("random", "shuffle"), ("random", "randint"), ("random", "seed"), ("datetime", "now"),
+             ("tempfile", "mkdtemp"), ("tempfile", "mkstemp"), ("tempfile", "gettempdir"), ("resource", "getrusage"), ("threading", "Timer")}
+
+
+def env_sources():
+    """calls through which the clock, the load of the machine, the process or the file system can reach a result: file:function:call"""
+    rows = set()
+    for d, _, fs in os.walk(REPO):
+        if any(x in d for x in ("/tests", "/.git", "/examples", "/scripts", "/bin")):
+            continue
+        for f in fs:
+            if not f.endswith(".py"):
+                continue
+            path = os.path.join(d, f)
+            rel = os.path.relpath(path, REPO)
+            with warnings.catch_warnings():
+                warnings.simplefilter("ignore")
+                try:
+                    tree = ast.parse(open(path).read())
+                except SyntaxError:
+                    continue
+            funcs = [n for n in ast.walk(tree) if isinstance(n, ast.FunctionDef)]
+
+            def owner(node):
+                best = "<module>"
+                for fn in funcs:
+                    if fn.lineno <= node.lineno <= getattr(fn, "end_lineno", fn.lineno):
+                        best = fn.name
+                return best
+            for n in ast.walk(tree):
+                if isinstance(n, ast.Call):
+                    fn = n.func
+                    if isinstance(fn, ast.Attribute) and isinstance(fn.value, ast.Name) and (fn.value.id, fn.attr) in ENV_WATCH:
+                        rows.add("%s:%s:%s.%s" % (rel, owner(n), fn.value.id, fn.attr))
+                    elif isinstance(fn, ast.Name) and fn.id in ("id", "hash"):
+                        rows.add("%s:%s:%s()" % (rel, owner(n), fn.id))
+    return sorted(rows)
+
+
 def lean_list(xs):
     return "[" + ", ".join('"%s"' % x for x in xs) + "]"
 
@@ -306,6 +347,11 @@ def generate():
     out.append("def setIterationSites : List (String × Bool) := [" + ", ".join('("%s", %s)' % (n, b(i)) for n, i in sites) + "]")
     out.append("")
     summary["set_iteration_sites"] = len(sites)
+    envs = env_sources()
+    out.append("/-- calls through which clock, load, process identity or directory order can reach a result: file:function:call -/")
+    out.append("def envSources : List String := " + lean_list(envs))
+    out.append("")
+    summary["env_sources"] = len(envs)
     out.append("end GasolVerif.Generated")
     path = os.path.join(ROOT, "lean", "GasolVerif", "Generated", "Globals.lean")
     os.makedirs(os.path.dirname(path), exist_ok=True)
